@@ -17,7 +17,99 @@ const NAMES: &[&str] = &["title", "textarea", "style", "xmp", "iframe", "noembed
 // '<', '/', '>', space, newline, quote and the 17 distinct letters of the nine names
 const ALPHA: &[u8] = b"</> \n\"abcdefhilmnoprstxy";
 
+// ---------------------------------------------------------------- the rule, written once more in Rust
+// (the renderers are checked against it on single-node trees: a literal placed as inline HTML in a paragraph and
+// as an HTML block of every block type, rendered with raw HTML allowed and the filter on)
+
+fn spec_disallowed_at(s: &[u8]) -> bool {
+    if s.first() != Some(&b'<') {
+        return false;
+    }
+    let i = if s.get(1) == Some(&b'/') { 2 } else { 1 };
+    for name in NAMES {
+        let n = name.len();
+        if s.len() >= i + n && s[i..i + n].eq_ignore_ascii_case(name.as_bytes()) {
+            return match s.get(i + n) {
+                Some(9) | Some(10) | Some(12) | Some(13) | Some(32) | Some(b'>') => true,
+                Some(b'/') => s.get(i + n + 1) == Some(&b'>'),
+                _ => false,
+            };
+        }
+    }
+    false
+}
+
+fn spec_rewrite(s: &[u8]) -> Vec<u8> {
+    let mut out = Vec::with_capacity(s.len());
+    for (k, c) in s.iter().enumerate() {
+        if *c == b'<' && spec_disallowed_at(&s[k..]) {
+            out.extend_from_slice(b"&lt;");
+        } else {
+            out.push(*c);
+        }
+    }
+    out
+}
+
+fn render_single(block_type: Option<u8>, lit: &str) -> Option<Vec<u8>> {
+    use comrak::nodes::{Ast, AstNode, NodeHtmlBlock, NodeValue};
+    let r = catch_unwind(AssertUnwindSafe(|| {
+        let arena = comrak::Arena::new();
+        let mk = |v: NodeValue| -> &AstNode { arena.alloc(comrak::arena_tree::Node::new(std::cell::RefCell::new(Ast::new(v, (0, 0).into())))) };
+        let root = mk(NodeValue::Document);
+        match block_type {
+            Some(bt) => root.append(mk(NodeValue::HtmlBlock(NodeHtmlBlock { block_type: bt, literal: lit.to_string() }))),
+            None => {
+                let p = mk(NodeValue::Paragraph);
+                root.append(p);
+                p.append(mk(NodeValue::HtmlInline(lit.to_string())));
+            }
+        }
+        let mut o = comrak::Options::default();
+        o.render.unsafe_ = true;
+        o.extension.tagfilter = true;
+        let mut out = Vec::new();
+        comrak::format_html(root, &o, &mut out).unwrap();
+        out
+    }));
+    r.ok()
+}
+
+/// The two renderers against the rule on one literal.
+fn check_rendered(rep: &mut Report, lit: &[u8], block_type: u8) {
+    let s = match std::str::from_utf8(lit) {
+        Ok(s) if !s.is_empty() => s,
+        _ => return,
+    };
+    rep.s_evals += 2;
+    let mut want_inline = b"<p>".to_vec();
+    if spec_disallowed_at(lit) {
+        want_inline.extend_from_slice(b"&lt;");
+        want_inline.extend_from_slice(&lit[1..]);
+    } else {
+        want_inline.extend_from_slice(lit);
+    }
+    want_inline.extend_from_slice(b"</p>\n");
+    match render_single(None, s) {
+        Some(got) if got == want_inline => {}
+        Some(got) => rep.fail("rendered-inline-vs-gfm-spec", "inline", format!("lit {}", hex(lit)), format!("inline HTML {:?} is written {:?}, the rule gives {:?}", show(lit), show(&got), show(&want_inline))),
+        None => rep.fail("tagfilter-total", "panic-in-render", format!("lit {}", hex(lit)), "format_html panics on an inline HTML node".into()),
+    }
+    let mut want_block = spec_rewrite(lit);
+    if want_block.last() != Some(&b'\n') {
+        want_block.push(b'\n');
+    }
+    match render_single(Some(block_type), s) {
+        Some(got) if got == want_block => {}
+        Some(got) => rep.fail("rendered-block-vs-gfm-spec", "block", format!("blk {} {}", block_type, hex(lit)), format!("HTML block (type {}) {:?} is written {:?}, the rule gives {:?}", block_type, show(lit), show(&got), show(&want_block))),
+        None => rep.fail("tagfilter-total", "panic-in-render", format!("blk {} {}", block_type, hex(lit)), "format_html panics on an HTML block node".into()),
+    }
+}
+
 fn push_literal<'a>(bt: &mut Batch<'a>, rep: &mut Report, lit: Vec<u8>) {
+    // the renderers on this literal: block type cycles through 0..=7 with the literal's length and first bytes
+    let bt_no = ((lit.len() + lit.iter().take(3).map(|b| *b as usize).sum::<usize>()) % 8) as u8;
+    check_rendered(rep, &lit, bt_no);
     // raw HTML literals are Rust `String`s: only valid UTF-8 can reach `tagfilter`
     // (it uses `from_utf8_unchecked`, so anything else would be undefined behaviour of the harness)
     if std::str::from_utf8(&lit).is_err() {
@@ -213,6 +305,9 @@ pub fn replay(kind: &str, input: &str) -> Result<Option<String>, String> {
     let mut bt = Batch::new();
     if let Some(h) = input.strip_prefix("lit ") {
         push_literal(&mut bt, &mut rep, unhex(h).ok_or("bad hex")?);
+    } else if let Some(rest) = input.strip_prefix("blk ") {
+        let (t, h) = rest.split_once(' ').ok_or("bad replay input")?;
+        check_rendered(&mut rep, &unhex(h).ok_or("bad hex")?, t.parse().map_err(|_| "bad block type")?);
     } else {
         let (o, src) = Src::parse_input(input).ok_or("bad replay input")?;
         push_html_k(&mut bt, &mut rep, &o, &src, "replay");
